@@ -126,6 +126,9 @@ struct DriverBase {
 
     void temporaries_must_be_gone()
     {
+        if (size_t const strays = reg().strays_in_arena(); strays != 0 && ctx.stepClass != 2) {
+            ctx.violation("C02", "memory:object-outside-its-owner", std::to_string(strays) + " element(s) were constructed outside the storage of the object that owns them");
+        }
         if (reg().live_outside_arena() != 0) {
             ctx.violation("C03", "lifetime:temporary-leaked", "a temporary element is still alive after the call returned");
             reg().harnessHeld.clear();
